@@ -205,6 +205,19 @@ class Obligation:
         return '<Obl %s %s>' % (self.kind, self.name)
 
 
+_HEAVY = {}
+
+
+def _heavy(h):
+    """Quantified or regex-membership hypotheses are left out of feasibility queries (sound
+    over-approximation of path feasibility)."""
+    r = _HEAVY.get(h)
+    if r is None:
+        r = _HEAVY[h] = any(s.op in ('forall', 'exists', 'str.in_re') or
+                            (s.op == 'app' and s.sort == tm.STR) for s in tm.subterms(h))
+    return r
+
+
 class Ctx:
     FEAS_TIMEOUT = 3.0
 
@@ -232,9 +245,8 @@ class Ctx:
     # decisions ---------------------------------------------------------------
     def feasible(self, extra):
         # quantified hypotheses are dropped here (sound over-approximation of feasibility)
-        hyps = [h for h in self.pc + self.axioms if not tm.has_quantifier(h)]
-        r = solve.check(hyps + list(extra), solvers=('z3',), timeout=self.FEAS_TIMEOUT)
-        return r['verdict'] != 'unsat'
+        hyps = [h for h in self.pc + self.axioms if not _heavy(h)]
+        return solve.feasible(hyps + list(extra))
 
     def decide(self, options):
         """options: list of lists of terms (each the constraint of that option)."""
